@@ -456,3 +456,26 @@ def r5(ctx):
                 bursts.append(p_.describe()[:140])
     ctx.check("ClientSSM.segmented_request_timeout:single-segment-before-first-ack", not bursts, where(cl.module, to),
               "while nothing has been acknowledged (initial sequence number 0, no window agreed) a timeout may repeat segment 0 only: %s" % bursts[:1])
+
+
+@rule("C12.R6", "every transmission of a request passes the capability decision, also a retry: what the peer announced in between (a new I-Am) is honoured", floor=1, engines="E1 paths")
+def r6(ctx):
+    prog = ctx.prog
+    c = prog.cls(MOD, "ClientSSM")
+    f = c.methods.get("await_confirmation_timeout")
+    if f is None:
+        raise AnchorMissing("ClientSSM.await_confirmation_timeout")
+    n = 0
+    for p_ in enumerate_paths(f):
+        if p_.term == "raise":
+            continue
+        calls = p_.calls()
+        if any(self_call(x) == "abort" for x in calls):
+            continue
+        n += 1
+        again = [x for x in calls if self_call(x) == "indication" and len(x.args) == 1 and norm(x.args[0]) == "self.segmentAPDU"]
+        direct = [x for x in calls if self_call(x) in ("request", "fill_window")]
+        ctx.check("ClientSSM.await_confirmation_timeout:retry-decides-again", len(again) == 1 and not direct, where(c.module, f),
+                  "a retry must go through indication(), where the request is measured against the peer's current limits; re-sending the stored frame directly ignores an I-Am that arrived since")
+    if n == 0:
+        raise ShapeError("ClientSSM.await_confirmation_timeout: no retry path found")
